@@ -2,18 +2,283 @@
 
 package secs2
 
-func VerifProbe() {
-	n := vsymChoose(4)
-	data := vsymBytes(n)
-	it, err := Decode(data)
-	if err == nil {
-		vsymReach("accepted")
-		out := it.ToBytes()
-		vsymAssert(len(out) <= len(data), "consumed<=len")
-		for i := range out {
-			vsymAssert(out[i] == data[i], "reencode-prefix")
-		}
-	} else {
-		vsymReach("rejected")
+import "math"
+
+// ---- independent SEMI E5 reference (written from the standard, on raw bytes only) ----
+
+// refWidth returns the element width of a format code: 0 for list, -1 for unknown.
+func refWidth(fc byte) int {
+	switch fc {
+	case 0o00:
+		return 0
+	case 0o10, 0o11, 0o20, 0o21, 0o31, 0o51:
+		return 1
+	case 0o22:
+		return 1
+	case 0o32, 0o52:
+		return 2
+	case 0o34, 0o54, 0o44:
+		return 4
+	case 0o30, 0o50, 0o40:
+		return 8
 	}
+	return -1
+}
+
+// refRecognise parses one E5 item at data[pos:] and returns the position after it, or ok=false
+// if the grammar (with the nesting limit 64) rejects.
+func refRecognise(data []byte, pos, depth int) (end int, ok bool) {
+	if pos >= len(data) {
+		return pos, false
+	}
+	fb := data[pos]
+	nlb := int(fb & 3)
+	fc := fb >> 2
+	if nlb == 0 {
+		return pos, false
+	}
+	if pos+1+nlb > len(data) {
+		return pos, false
+	}
+	length := 0
+	for i := 0; i < nlb; i++ {
+		length = length<<8 | int(data[pos+1+i])
+	}
+	p := pos + 1 + nlb
+	w := refWidth(fc)
+	if w < 0 {
+		return pos, false
+	}
+	if fc == 0 {
+		if depth+1 > 64 {
+			return pos, false
+		}
+		for i := 0; i < length; i++ {
+			var ok2 bool
+			p, ok2 = refRecognise(data, p, depth+1)
+			if !ok2 {
+				return pos, false
+			}
+		}
+		return p, true
+	}
+	if p+length > len(data) {
+		return pos, false
+	}
+	if length%w != 0 {
+		return pos, false
+	}
+	if fc == 0o22 && length < 2 {
+		return pos, false
+	}
+	return p + length, true
+}
+
+func refTypeName(fc byte) string {
+	switch fc {
+	case 0o00:
+		return "list"
+	case 0o10:
+		return "binary"
+	case 0o11:
+		return "boolean"
+	case 0o20:
+		return "ascii"
+	case 0o21:
+		return "jis8"
+	case 0o22:
+		return "localized_str"
+	case 0o30:
+		return "i8"
+	case 0o31:
+		return "i1"
+	case 0o32:
+		return "i2"
+	case 0o34:
+		return "i4"
+	case 0o40:
+		return "f8"
+	case 0o44:
+		return "f4"
+	case 0o50:
+		return "u8"
+	case 0o51:
+		return "u1"
+	case 0o52:
+		return "u2"
+	case 0o54:
+		return "u4"
+	}
+	return "?"
+}
+
+func refBE(data []byte, pos, w int) uint64 {
+	var v uint64
+	for i := 0; i < w; i++ {
+		v = v<<8 | uint64(data[pos+i])
+	}
+	return v
+}
+
+// refCheckItem walks a decoded item and the bytes it was decoded from in lock step and asserts
+// that type, size and every element value are the ones E5 assigns to those bytes. Returns the
+// position after the item. Only called on inputs the recogniser accepts.
+func refCheckItem(it Item, data []byte, pos int, tag string) int {
+	fb := data[pos]
+	nlb := int(fb & 3)
+	fc := fb >> 2
+	length := 0
+	for i := 0; i < nlb; i++ {
+		length = length<<8 | int(data[pos+1+i])
+	}
+	p := pos + 1 + nlb
+	vsymAssert(it != nil, tag+"item-non-nil")
+	if it == nil {
+		return p
+	}
+	vsymAssert(it.Error() == nil, tag+"decoded-item-error-free")
+	vsymAssert(it.Type() == refTypeName(fc), tag+"type")
+	switch fc {
+	case 0o00:
+		vsymAssert(it.Size() == length, tag+"list-size")
+		kids, err := it.ToList()
+		vsymAssert(err == nil && len(kids) == length, tag+"list-children")
+		for i := 0; i < length && i < len(kids); i++ {
+			p = refCheckItem(kids[i], data, p, tag)
+		}
+		return p
+	case 0o10:
+		b, err := it.ToBinary()
+		vsymAssert(err == nil && len(b) == length && it.Size() == length, tag+"binary-size")
+		for i := 0; i < length && i < len(b); i++ {
+			vsymAssert(b[i] == data[p+i], tag+"binary-value")
+		}
+	case 0o11:
+		b, err := it.ToBoolean()
+		vsymAssert(err == nil && len(b) == length && it.Size() == length, tag+"boolean-size")
+		for i := 0; i < length && i < len(b); i++ {
+			vsymAssert(b[i] == (data[p+i] != 0), tag+"boolean-value")
+		}
+	case 0o20, 0o21:
+		var s string
+		var err error
+		if fc == 0o20 {
+			s, err = it.ToASCII()
+		} else {
+			s, err = it.ToJIS8()
+		}
+		vsymAssert(err == nil && len(s) == length && it.Size() == length, tag+"string-size")
+		for i := 0; i < length && i < len(s); i++ {
+			vsymAssert(s[i] == data[p+i], tag+"string-value")
+		}
+	case 0o22:
+		s, err := it.ToLocalizedStr()
+		h, err2 := it.ToLocalizedStrHeader()
+		vsymAssert(err == nil && err2 == nil && len(s) == length-2 && it.Size() == length, tag+"lstr-size")
+		vsymAssert(h == uint16(data[p])<<8|uint16(data[p+1]), tag+"lstr-header")
+		for i := 0; i < length-2 && i < len(s); i++ {
+			vsymAssert(s[i] == data[p+2+i], tag+"lstr-value")
+		}
+	case 0o31, 0o32, 0o34, 0o30:
+		w := refWidth(fc)
+		v, err := it.ToInt()
+		n := length / w
+		vsymAssert(err == nil && len(v) == n && it.Size() == n, tag+"int-size")
+		for i := 0; i < n && i < len(v); i++ {
+			raw := refBE(data, p+i*w, w)
+			sh := uint(64 - 8*w)
+			want := int64(raw<<sh) >> sh
+			vsymAssert(v[i] == want, tag+"int-value")
+		}
+	case 0o51, 0o52, 0o54, 0o50:
+		w := refWidth(fc)
+		v, err := it.ToUint()
+		n := length / w
+		vsymAssert(err == nil && len(v) == n && it.Size() == n, tag+"uint-size")
+		for i := 0; i < n && i < len(v); i++ {
+			vsymAssert(v[i] == refBE(data, p+i*w, w), tag+"uint-value")
+		}
+	case 0o40, 0o44:
+		w := refWidth(fc)
+		v, err := it.ToFloat()
+		n := length / w
+		vsymAssert(err == nil && len(v) == n && it.Size() == n, tag+"float-size")
+		for i := 0; i < n && i < len(v); i++ {
+			raw := refBE(data, p+i*w, w)
+			var want uint64
+			if w == 8 {
+				want = raw
+			} else {
+				want = math.Float64bits(float64(math.Float32frombits(uint32(raw))))
+			}
+			vsymAssert(math.Float64bits(v[i]) == want, tag+"float-value")
+		}
+	}
+	return p + length
+}
+
+// c02Check is the oracle shared by all C02 harnesses: the real Decode and DecodeOwned on data
+// against the reference recogniser and the lock-step value checker, under the allocation guard.
+func c02Check(data []byte) {
+	end, ok := refRecognise(data, 0, 0)
+
+	input := append([]byte(nil), data...)
+	vsymAllocBound(512*len(data) + 8192)
+	it, err := Decode(input)
+	vsymAllocBound(-1)
+	if len(data) == 0 {
+		vsymAssert(err == nil && it != nil && it.IsEmpty(), "empty-input-gives-empty-item")
+		return
+	}
+	vsymAssert((err == nil) == ok, "accepts-exactly-the-grammar")
+	if err != nil {
+		vsymReach("rejected")
+		vsymAssert(it == nil, "error-xor-item")
+	} else {
+		vsymReach("accepted")
+		vsymAssert(it != nil, "error-xor-item")
+	}
+	if err == nil && ok && it != nil {
+		p := refCheckItem(it, data, 0, "copy:")
+		vsymAssert(p == end, "consumed-length")
+		out := it.ToBytes()
+		vsymAssert(len(out) == end, "reencode-length")
+		vsymAssert(it.EncodedLen() == end, "encodedlen")
+		for i := 0; i < end && i < len(out); i++ {
+			vsymAssert(out[i] == data[i], "reencode-bytes")
+		}
+		// the caller's buffer is not written by Decode
+		for i := range data {
+			vsymAssert(input[i] == data[i], "input-untouched")
+		}
+	}
+
+	owned := append([]byte(nil), data...)
+	vsymAllocBound(512*len(data) + 8192)
+	it2, err2 := DecodeOwned(owned)
+	vsymAllocBound(-1)
+	vsymAssert((err2 == nil) == (err == nil), "owned-agrees-on-acceptance")
+	if err2 == nil && err == nil && ok && it2 != nil {
+		p := refCheckItem(it2, data, 0, "owned:")
+		vsymAssert(p == end, "owned-consumed-length")
+		out := it2.ToBytes()
+		vsymAssert(len(out) == end, "owned-reencode-length")
+		for i := 0; i < end && i < len(out); i++ {
+			vsymAssert(out[i] == data[i], "owned-reencode-bytes")
+		}
+		vsymAssert(Equal(it, it2), "owned-equal-copy")
+	}
+}
+
+// VerifC02_AllShort: every byte string of length 0..N (N = 5 quick, 7 thorough).
+func VerifC02_AllShort() {
+	vsymExpect("accepted")
+	vsymExpect("rejected")
+	max := 5
+	if vsymTier() == 1 {
+		max = 7
+	}
+	n := vsymChoose(max + 1)
+	data := vsymBytes(n)
+	c02Check(data)
 }
